@@ -69,174 +69,283 @@ F9_SIG = "F9:asyncio-writelines-empty-iterable"
 
 # ---------------------------------------------------------------------------------------------------------------
 # Gen/ParamsC04.v : does SocketStreamTransport.send_all_from_iterable drop empty views when it builds its deque?
-def _is_map_memoryview(node):
-    return (isinstance(node, ast.Call) and isinstance(node.func, ast.Name) and node.func.id == "map" and len(node.args) == 2
-            and isinstance(node.args[0], ast.Name) and node.args[0].id == "memoryview" and not node.keywords)
+# The model has three switches that depend on the tree it is run against:
+#   sendmsg_drops_empty_views                does send_all_from_iterable drop empty views when it builds its deque?
+#   (fall-back table)                        sendmsg loop iff the socket has sendmsg and SC_IOV_MAX > 0, else join + send_all
+#   asyncio_adapter_guards_empty_iterable    is transport.writelines() skipped for an empty chunk list?
+# They are decided BEHAVIOURALLY: the real methods are run on a scripted socket over a decisive grid and the answers are
+# tabulated (`probe_*`).  The AST is read by data flow as a cross-check only: where it recognises the construction it
+# must agree with the probes (disagreement = fail closed); a shape it does not recognise is not an error.
+_switch_cache = {}
 
 
-def _truthy_test_of(node, var):
-    """`var`, `var.nbytes`, `len(var)`, `var.nbytes > 0`, `len(var) > 0`"""
+class _RecordingSocket(iosim.ScriptedSocket):
+    """Scripted socket that also records what every sendmsg()/send() call was given (lengths of the buffers)."""
+
+    def sendmsg(self, buffers, *a):
+        bufs = [bytes(memoryview(b).cast("B")) if memoryview(b).itemsize != 1 else bytes(b) for b in buffers]
+        self.script.trace.append(("sendmsg", [len(b) for b in bufs]))
+        return super().sendmsg(bufs, *a)
+
+    def send(self, data, *flags):
+        self.script.trace.append(("send", [memoryview(data).nbytes]))
+        return super().send(data, *flags)
+
+
+class _RecordingNoSendmsg(_RecordingSocket):
+    @property
+    def sendmsg(self):
+        raise AttributeError("sendmsg")
+
+
+def _probe_send_iter(lengths, iov, has_sendmsg=True, sscript=()):
+    """Run the REAL SocketStreamTransport.send_all_from_iterable once; -> (trace of socket calls, terminated?, wire ok?)"""
+    from easynetwork.lowlevel import constants
+    from easynetwork.lowlevel.api_sync.transports.socket import SocketStreamTransport
+
+    chunks = mk_chunks(lengths)
+    clock = iosim.Clock()
+    sel = iosim.SelectorScript(clock, [])
+    script = iosim.SockScript(clock, send=[tuple(a) for a in sscript], bound=sum(lengths) + len(lengths) + len(sscript) + 4)
+    script.trace = []
+    sock, peer = iosim.make_pair(_RecordingSocket if has_sendmsg else _RecordingNoSendmsg, script)
+    transport = SocketStreamTransport(sock, 1.0, selector_factory=sel.factory)
+    saved = constants.SC_IOV_MAX
+    constants.SC_IOV_MAX = iov
+    terminated = True
+    try:
+        with clock.installed(), iosim.alarm(120.0):
+            try:
+                transport.send_all_from_iterable(iter(list(chunks)), math.inf)
+            except iosim.SpinDetected:
+                terminated = False
+        wire = iosim.drain(peer)
+    finally:
+        constants.SC_IOV_MAX = saved
+        transport.close()
+        peer.close()
+    return script.trace, terminated, wire == b"".join(chunks)
+
+
+def probe_empty_view_policy():
+    """-> ('all' | 'none', table)   which empty views the sendmsg path drops before its loop, from behaviour alone.
+    Grid: SC_IOV_MAX in {1, 2, 3}; empty chunks alone, leading, in the middle, trailing, in runs of SC_IOV_MAX-1,
+    SC_IOV_MAX and SC_IOV_MAX+1; every run is bounded (spin detector).  'all': no sendmsg() call ever receives an empty
+    buffer.  'none': the first call receives exactly the first SC_IOV_MAX chunks as given.  Anything else (e.g. only
+    trailing ones dropped) is outside the model: fail closed with the table."""
+    table = []
+    never_empty, kept_as_given = True, True
+    for k in (1, 2, 3):
+        lists = [[0], [0, 0], [0, 2], [2, 0], [2, 0, 3], [0, 2, 0]]
+        for r in sorted({max(k - 1, 1), k, k + 1}):
+            lists += [[0] * r + [2], [2] + [0] * r + [3], [2] + [0] * r, [0] * r]
+        for lengths in lists:
+            trace, terminated, wire_ok = _probe_send_iter(lengths, k)
+            calls = [c[1] for c in trace if c[0] == "sendmsg"]
+            passed_empty = any(0 in c for c in calls)
+            table.append((k, lengths, calls[:3], terminated, wire_ok))
+            if passed_empty or not terminated:
+                never_empty = False
+            if not calls or calls[0] != lengths[:k]:
+                kept_as_given = False
+    if never_empty and all(t[3] and t[4] for t in table):
+        return "all", table
+    if kept_as_given:
+        return "none", table
+    bad = [t for t in table if not t[3] or any(0 in c for c in t[2])][:4]
+    raise runner.TranslateError("send_all_from_iterable (sendmsg path) neither drops every empty view nor keeps them all "
+                                f"(SC_IOV_MAX, chunk lengths, first sendmsg calls, terminated, wire ok): {bad}")
+
+
+def probe_fallback_table():
+    """Which path is taken for which (has_sendmsg, SC_IOV_MAX): the model takes the sendmsg loop iff both hold."""
+    got = {}
+    for hs, iov in ((True, 1), (True, 1024), (True, 0), (True, -1), (False, 1), (False, 1024)):
+        trace, terminated, wire_ok = _probe_send_iter([2, 3], iov, has_sendmsg=hs)
+        kinds = {c[0] for c in trace}
+        got[(hs, iov)] = ("sendmsg" if kinds == {"sendmsg"} else "join" if kinds == {"send"} and [c[1] for c in trace] == [[5]]
+                          else f"other:{trace}")
+        want = "sendmsg" if (hs and iov > 0) else "join"
+        if got[(hs, iov)] != want or not terminated or not wire_ok:
+            raise runner.TranslateError(f"fall-back table: has_sendmsg={hs}, SC_IOV_MAX={iov}: the code takes "
+                                        f"{got[(hs, iov)]}, the model {want}")
+    return got
+
+
+def probe_adapter_empty_iterable():
+    """Does AsyncioTransportStreamSocketAdapter.send_all_from_iterable([]) return (guarded) or hit asyncio's assertion?"""
+    import c04_async
+    out = c04_async.run_asyncio_adapter([4, 1024, [], [], [], [], [], 3])
+    if out[0] == 0:
+        return True
+    if out[0] == 30:
+        return False
+    raise runner.TranslateError(f"asyncio adapter with an empty chunk list: unexpected outcome code {out[0]}")
+
+
+# ---- AST cross-check, by data flow (returns None when the construction is not recognised)
+def _is_truthy_test(node, var):
+    """`var`, `var.nbytes`, `len(var)`, `... > 0`, `... != 0`"""
     def base(n):
         if isinstance(n, ast.Name) and n.id == var:
             return True
         if isinstance(n, ast.Attribute) and n.attr == "nbytes" and isinstance(n.value, ast.Name) and n.value.id == var:
             return True
-        if isinstance(n, ast.Call) and isinstance(n.func, ast.Name) and n.func.id == "len" and len(n.args) == 1 \
-                and isinstance(n.args[0], ast.Name) and n.args[0].id == var:
-            return True
-        return False
+        return (isinstance(n, ast.Call) and isinstance(n.func, ast.Name) and n.func.id == "len" and len(n.args) == 1
+                and isinstance(n.args[0], ast.Name) and n.args[0].id == var)
     if base(node):
         return True
-    if isinstance(node, ast.Compare) and len(node.ops) == 1 and isinstance(node.ops[0], (ast.Gt, ast.NotEq)) \
-            and base(node.left) and isinstance(node.comparators[0], ast.Constant) and node.comparators[0].value == 0:
-        return True
-    return False
+    return (isinstance(node, ast.Compare) and len(node.ops) == 1 and isinstance(node.ops[0], (ast.Gt, ast.NotEq))
+            and base(node.left) and isinstance(node.comparators[0], ast.Constant) and node.comparators[0].value == 0)
 
 
-def _deque_drops_empty(value):
-    if not (isinstance(value, ast.Call) and isinstance(value.func, ast.Name) and value.func.id == "deque"
-            and len(value.args) == 1 and not value.keywords):
-        raise runner.TranslateError("buffers is not built with deque(<one argument>)")
-    arg = value.args[0]
-    if _is_map_memoryview(arg):
-        return False
-    if isinstance(arg, ast.Call) and isinstance(arg.func, ast.Name) and arg.func.id == "filter" and len(arg.args) == 2 \
-            and _is_map_memoryview(arg.args[1]):
-        f = arg.args[0]
-        if (isinstance(f, ast.Constant) and f.value is None) or (isinstance(f, ast.Name) and f.id in ("len", "bool")):
-            return True
-        if isinstance(f, ast.Lambda) and len(f.args.args) == 1 and _truthy_test_of(f.body, f.args.args[0].arg):
-            return True
-        raise runner.TranslateError("unrecognised filter predicate in the construction of `buffers`")
-    if isinstance(arg, ast.GeneratorExp) and len(arg.generators) == 1:
-        g = arg.generators[0]
-        if isinstance(g.target, ast.Name) and isinstance(arg.elt, ast.Name) and arg.elt.id == g.target.id \
-                and _is_map_memoryview(g.iter) and not g.is_async:
-            if not g.ifs:
-                return False
-            if len(g.ifs) == 1 and _truthy_test_of(g.ifs[0], g.target.id):
-                return True
-        raise runner.TranslateError("unrecognised generator expression in the construction of `buffers`")
-    raise runner.TranslateError("unrecognised construction of `buffers`: " + ast.dump(arg)[:120])
+def _find_method(relpath, clsname, name, kinds=(ast.FunctionDef, ast.AsyncFunctionDef)):
+    try:
+        tree = ast.parse(open(os.path.join(runner.REPO, relpath)).read())
+    except (SyntaxError, OSError):
+        return None
+    for cls in tree.body:
+        if isinstance(cls, ast.ClassDef) and cls.name == clsname:
+            for fn in cls.body:
+                if isinstance(fn, kinds) and fn.name == name:
+                    return fn
+    return None
 
 
-def _check_sendmsg_loop_shape(fn):
-    """Every top-level statement of send_all_from_iterable that mentions `buffers` must be one the model transcribes:
-    the construction of the deque, `def try_sendmsg` (islice(buffers, SC_IOV_MAX)) and
-    `while buffers: sent, timeout = self._retry(try_sendmsg, timeout); adjust_leftover_buffer(buffers, sent)`.
-    Anything else that reads or edits the deque (pops, filters, reorders) is not modelled: fail closed."""
-    def mentions(node):
-        return any(isinstance(x, ast.Name) and x.id == "buffers" for x in ast.walk(node))
-
-    def is_call_attr(node, attr):
-        return isinstance(node, ast.Call) and isinstance(node.func, ast.Attribute) and node.func.attr == attr
-
+def ast_drops_empty_views():
+    """True / False when the construction of the deque is recognised by data flow, None otherwise.
+    The deque is whatever local is handed to adjust_leftover_buffer(); recognised constructions:
+      deque(map(memoryview, it))                         keeps        deque(filter(f, map(memoryview, it)))       drops
+      deque(v for v in map(memoryview, it) [if test])    keeps/drops  deque() + for x in it: [v = memoryview(x)] [if test:] D.append(v)
+    Any other statement that edits the deque before the loop (pop, remove, clear, slicing ...) -> None."""
+    fn = _find_method("src/easynetwork/lowlevel/api_sync/transports/socket.py", "SocketStreamTransport", "send_all_from_iterable")
+    if fn is None:
+        return None
+    names = {ast.unparse(c.args[0]) for c in ast.walk(fn)
+             if isinstance(c, ast.Call) and isinstance(c.func, ast.Attribute) and c.func.attr == "adjust_leftover_buffer" and c.args}
+    if len(names) != 1:
+        return None
+    dq = names.pop()
+    verdict = None
     for st in fn.body:
-        if not mentions(st):
+        targets = []
+        if isinstance(st, ast.AnnAssign) and isinstance(st.target, ast.Name):
+            targets, value = [st.target.id], st.value
+        elif isinstance(st, ast.Assign):
+            targets, value = [t.id for t in st.targets if isinstance(t, ast.Name)], st.value
+        if dq in targets:
+            if not (isinstance(value, ast.Call) and ast.unparse(value.func).endswith("deque")):
+                return None
+            if not value.args:
+                verdict = "empty"
+                continue
+            arg = value.args[0]
+            if isinstance(arg, ast.Call) and ast.unparse(arg.func) == "map" and ast.unparse(arg.args[0]) == "memoryview":
+                verdict = False
+            elif isinstance(arg, ast.Call) and ast.unparse(arg.func) == "filter" and len(arg.args) == 2:
+                verdict = True
+            elif isinstance(arg, (ast.GeneratorExp, ast.ListComp)) and len(arg.generators) == 1 \
+                    and isinstance(arg.generators[0].target, ast.Name):
+                g = arg.generators[0]
+                if not g.ifs:
+                    verdict = False
+                elif len(g.ifs) == 1 and _is_truthy_test(g.ifs[0], g.target.id):
+                    verdict = True
+                else:
+                    return None
+            else:
+                return None
             continue
-        if isinstance(st, (ast.AnnAssign, ast.Assign)):
+        if isinstance(st, ast.For) and verdict == "empty" and any(
+                isinstance(x, ast.Call) and ast.unparse(x.func) == f"{dq}.append" for x in ast.walk(st)):
+            guarded = [n for n in st.body if isinstance(n, ast.If)
+                       and any(isinstance(x, ast.Call) and ast.unparse(x.func) == f"{dq}.append" for x in ast.walk(n))]
+            plain = [n for n in st.body if isinstance(n, ast.Expr) and isinstance(n.value, ast.Call)
+                     and ast.unparse(n.value.func) == f"{dq}.append"]
+            if plain and not guarded:
+                verdict = False
+            elif guarded and not plain and len(guarded) == 1 and not guarded[0].orelse:
+                test = guarded[0].test
+                var = next((x.id for x in ast.walk(test) if isinstance(x, ast.Name) and x.id != "len"), None)
+                verdict = True if (var and _is_truthy_test(test, var)) else None
+                if verdict is None:
+                    return None
+            else:
+                return None
             continue
-        if isinstance(st, ast.FunctionDef) and st.name == "try_sendmsg":
-            calls = [x for x in ast.walk(st) if is_call_attr(x, "sendmsg")]
-            if len(calls) != 1 or not (len(calls[0].args) == 1 and isinstance(calls[0].args[0], ast.Call)
-                                       and ast.unparse(calls[0].args[0].func).endswith("islice")
-                                       and ast.unparse(calls[0].args[0].args[0]) == "buffers"
-                                       and ast.unparse(calls[0].args[0].args[1]).endswith("SC_IOV_MAX")):
-                raise runner.TranslateError("try_sendmsg is not socket.sendmsg(islice(buffers, SC_IOV_MAX))")
+        # any other top-level statement that edits the deque (outside the send loop and the sendmsg closure)
+        if isinstance(st, (ast.While, ast.FunctionDef)):
+            if isinstance(st, ast.While) and not any(
+                    isinstance(x, ast.Call) and isinstance(x.func, ast.Attribute) and x.func.attr == "_retry" for x in ast.walk(st)):
+                if any(isinstance(x, ast.Name) and x.id == dq for x in ast.walk(st)):
+                    return None
             continue
-        if isinstance(st, ast.While) and isinstance(st.test, ast.Name) and st.test.id == "buffers" and not st.orelse \
-                and len(st.body) == 2 \
-                and isinstance(st.body[0], ast.Assign) and is_call_attr(st.body[0].value, "_retry") \
-                and ast.unparse(st.body[0].targets[0]) in ("(sent, timeout)", "sent, timeout") \
-                and [ast.unparse(a) for a in st.body[0].value.args] == ["try_sendmsg", "timeout"] \
-                and isinstance(st.body[1], ast.Expr) and is_call_attr(st.body[1].value, "adjust_leftover_buffer") \
-                and [ast.unparse(a) for a in st.body[1].value.args] == ["buffers", "sent"]:
-            continue
-        raise runner.TranslateError("send_all_from_iterable touches `buffers` in a statement the model does not transcribe: "
-                                    + ast.unparse(st).split("\n")[0][:100])
+        if any(isinstance(x, ast.Attribute) and isinstance(x.value, ast.Name) and x.value.id == dq
+               and x.attr in ("pop", "popleft", "remove", "clear", "rotate", "reverse", "extend", "extendleft", "appendleft", "insert")
+               for x in ast.walk(st)):
+            return None
+    return verdict if isinstance(verdict, bool) else None
 
 
-def drain_order_is_modelled():
-    """WriteFlowControl.drain (C20's anchor, used by the adapter's send): the model (Conc/FlowControl.v wfc_drain) does
-    `if is_closing(): yield` FIRST and only then tests connection_lost.  Fail closed on any other order."""
-    path = os.path.join(runner.REPO, "src/easynetwork/lowlevel/api_async/backend/_asyncio/_flow_control.py")
-    try:
-        tree = ast.parse(open(path).read())
-    except SyntaxError as exc:
-        raise runner.TranslateError(f"_flow_control.py does not parse: {exc}")
-    for cls in tree.body:
-        if isinstance(cls, ast.ClassDef) and cls.name == "WriteFlowControl":
-            for fn in cls.body:
-                if isinstance(fn, ast.AsyncFunctionDef) and fn.name == "drain":
-                    body = [st for st in fn.body if not (isinstance(st, ast.Expr) and isinstance(st.value, ast.Constant))]
-                    tests = [ast.unparse(st.test) for st in body[:3] if isinstance(st, ast.If)]
-                    if len(tests) < 3 or "is_closing" not in tests[0] or "connection_lost" not in tests[1] \
-                            or "write_paused" not in tests[2]:
-                        raise runner.TranslateError("WriteFlowControl.drain does not test is_closing (yield), connection_lost, "
-                                                    f"write_paused in this order: {tests}")
-                    if not any(isinstance(x, ast.Await) for x in ast.walk(body[0])):
-                        raise runner.TranslateError("WriteFlowControl.drain: the is_closing branch does not yield to the loop")
-                    return True
-    raise runner.TranslateError("WriteFlowControl.drain not found")
-
-
-def drops_empty_views():
-    path = os.path.join(runner.REPO, "src/easynetwork/lowlevel/api_sync/transports/socket.py")
-    try:
-        tree = ast.parse(open(path).read())
-    except SyntaxError as exc:
-        raise runner.TranslateError(f"socket.py does not parse: {exc}")
-    for cls in tree.body:
-        if isinstance(cls, ast.ClassDef) and cls.name == "SocketStreamTransport":
-            for fn in cls.body:
-                if isinstance(fn, ast.FunctionDef) and fn.name == "send_all_from_iterable":
-                    found = []
-                    for n in ast.walk(fn):
-                        if isinstance(n, ast.AnnAssign) and isinstance(n.target, ast.Name) and n.target.id == "buffers":
-                            found.append(n.value)
-                        elif isinstance(n, ast.Assign) and any(isinstance(t, ast.Name) and t.id == "buffers" for t in n.targets):
-                            found.append(n.value)
-                    if len(found) != 1:
-                        raise runner.TranslateError(f"expected exactly one assignment to `buffers`, found {len(found)}")
-                    _check_sendmsg_loop_shape(fn)
-                    return _deque_drops_empty(found[0])
-    raise runner.TranslateError("SocketStreamTransport.send_all_from_iterable not found")
-
-
-def adapter_guards_empty_iterable():
-    """AsyncioTransportStreamSocketAdapter.send_all_from_iterable: is transport.writelines() guarded against an empty list?"""
-    path = os.path.join(runner.REPO, "src/easynetwork/lowlevel/api_async/backend/_asyncio/stream/socket.py")
-    try:
-        tree = ast.parse(open(path).read())
-    except SyntaxError as exc:
-        raise runner.TranslateError(f"stream/socket.py does not parse: {exc}")
+def ast_adapter_guards_empty_iterable():
+    fn = _find_method("src/easynetwork/lowlevel/api_async/backend/_asyncio/stream/socket.py",
+                      "AsyncioTransportStreamSocketAdapter", "send_all_from_iterable")
+    if fn is None:
+        return None
 
     def is_writelines(node):
         return (isinstance(node, ast.Expr) and isinstance(node.value, ast.Call) and isinstance(node.value.func, ast.Attribute)
                 and node.value.func.attr == "writelines")
+    if any(is_writelines(st) for st in fn.body):
+        return False
+    if any(isinstance(st, ast.If) and any(is_writelines(x) for x in ast.walk(st)) for st in fn.body):
+        return True
+    return None
 
-    for cls in tree.body:
-        if isinstance(cls, ast.ClassDef) and cls.name == "AsyncioTransportStreamSocketAdapter":
-            for fn in cls.body:
-                if isinstance(fn, ast.AsyncFunctionDef) and fn.name == "send_all_from_iterable":
-                    body = [st for st in fn.body if not (isinstance(st, ast.Expr) and isinstance(st.value, ast.Constant))]
-                    if any(is_writelines(st) for st in body):
-                        return False                       # unconditional writelines(iterable_of_data)
-                    for st in body:
-                        if isinstance(st, ast.If) and any(is_writelines(x) for x in ast.walk(st) if isinstance(x, ast.Expr)):
-                            return True
-                    raise runner.TranslateError("unrecognised shape of AsyncioTransportStreamSocketAdapter.send_all_from_iterable")
-    raise runner.TranslateError("AsyncioTransportStreamSocketAdapter.send_all_from_iterable not found")
+
+def switches():
+    """{name: (value, source)}; source = 'AST + behavioural (agree)' | 'behavioural (AST shape not recognised)'"""
+    if "v" in _switch_cache:
+        return _switch_cache["v"]
+    try:
+        policy, _table = probe_empty_view_policy()
+        probe_fallback_table()
+        guard = probe_adapter_empty_iterable()
+    except runner.TranslateError:
+        raise
+    except Exception as exc:  # noqa: BLE001 - a probe that cannot even run is a broken tie, not a crash of the check
+        raise runner.TranslateError(f"behavioural extraction of the model switches failed: {exc.__class__.__name__}: {exc}")
+    out = {}
+    for name, value, from_ast in (("sendmsg_drops_empty_views", policy == "all", ast_drops_empty_views()),
+                                  ("asyncio_adapter_guards_empty_iterable", guard, ast_adapter_guards_empty_iterable())):
+        if from_ast is None:
+            out[name] = (value, "behavioural (AST shape not recognised)")
+        elif from_ast != value:
+            raise runner.TranslateError(f"{name}: the AST reads {from_ast} but the real code behaves as {value}")
+        else:
+            out[name] = (value, "AST + behavioural (agree)")
+    out["fallback_table"] = (True, "behavioural (sendmsg loop iff the socket has sendmsg and SC_IOV_MAX > 0)")
+    _switch_cache["v"] = out
+    return out
+
+
+def drops_empty_views():
+    return switches()["sendmsg_drops_empty_views"][0]
+
+
+def adapter_guards_empty_iterable():
+    return switches()["asyncio_adapter_guards_empty_iterable"][0]
 
 
 def params():
-    flag = drops_empty_views()
-    guard = adapter_guards_empty_iterable()
-    drain_order_is_modelled()
+    sw = switches()
+    flag, src1 = sw["sendmsg_drops_empty_views"]
+    guard, src2 = sw["asyncio_adapter_guards_empty_iterable"]
     return ("(* True iff SocketStreamTransport.send_all_from_iterable drops empty views when building its deque "
-            "(the F2 repair). *)\n"
+            f"(the F2 repair).  Source: {src1}. *)\n"
             f"Definition sendmsg_drops_empty_views : bool := {'true' if flag else 'false'}.\n"
-            "(* True iff the asyncio adapter does not call transport.writelines() with an empty list (the F9 repair). *)\n"
+            "(* True iff the asyncio adapter does not call transport.writelines() with an empty list (the F9 repair).  "
+            f"Source: {src2}. *)\n"
             f"Definition asyncio_adapter_guards_empty_iterable : bool := {'true' if guard else 'false'}.\n")
 
 
@@ -715,8 +824,10 @@ def cases(tier, rng, escalate):
 def extra(ctx):
     try:
         import realio
-        return {"sendmsg_drops_empty_views": drops_empty_views(),
-                "asyncio_adapter_guards_empty_iterable": adapter_guards_empty_iterable(),
+        sw = switches()
+        return {"model_switches": {k: dict(value=v[0], source=v[1]) for k, v in sw.items()},
+                "sendmsg_drops_empty_views": sw["sendmsg_drops_empty_views"][0],
+                "asyncio_adapter_guards_empty_iterable": sw["asyncio_adapter_guards_empty_iterable"][0],
                 "real_socket_stream": dict(realio.STATS)}
     except runner.TranslateError:
         return {}
